@@ -143,6 +143,11 @@ func (p *c04) HangSignature(c fw.Case, detail string) (string, string, any) {
 	if i := strings.Index(detail, "("); i > 0 {
 		entry = detail[:i]
 	}
+	for _, k := range []string{"template_value:", "template:", "expression:"} {
+		if strings.HasPrefix(detail, k) {
+			entry = strings.TrimSuffix(k, ":") // the template text is in the witness, not in the signature
+		}
+	}
 	cls := hangClass(detail)
 	return "hang|" + entry + "|" + cls, fmt.Sprintf("evaluation did not return within the stage-2 budget: %s", trunc(detail, 300)), map[string]any{"case": c.ID(), "call": detail}
 }
@@ -547,6 +552,9 @@ func (p *c04) directed(c fw.Case, cr *c04run, r *fw.Rand) {
 			`@contact.`, `@contact..name`, `@contact.fields.`, `@CONTACT.NAME`, `@@@@`, `@(@contact)`, `@(contact.name.0)`, `@(arr.0.0)`, `@(results.q1.extra.n.x)`,
 			`@(parse_json("[") )`, `@(parse_json("{\"a\":1,\"A\":2}").a)`, `@(parse_json("1e999").x)`, `@(count(parse_json("[1,2")))`, `@(json(parse_json(" [1 , 2] ")))`,
 			`@(parse_json("\"\\ud800\""))`, `@(parse_json("{\"a\":\"\\u0000\"}").a)`, `@(json(parse_json("{\"\\u0000\":1}")))`,
+			`@(2 ^ 0.5)`, `@(99999999999999999999 ^ 0.5)`, `@(0.5 ^ 0.5)`, `@(1.50 ^ 0.5)`, `@(2 ^ -0.5)`, `@(10 ^ 1.5)`, `@(foo ^ 0.5)`,
+			`@5pm`, `see you @5pm`, `3 apples @2.50 each`, `@1`, `@٣`, `@_`, `@é`, `@.`, `@-`, `@(` + strings.Repeat("9", 70) + `)`, `@(1` + strings.Repeat("0", 64) + ` + 1)`, `@(0.` + strings.Repeat("0", 70) + `1 * 2)`,
+			`@(has_beginning("Ⱥ", "ⱥ"))`, `@(has_beginning("ȺȾ", "ⱥⱦ"))`, `@(has_phrase("İstanbul", "i"))`, `@(has_only_text("ẞ", "ß"))`, `@(upper("ŉ") & lower("İ") & title("ǆ"))`, `@(has_any_word("ſ K", "s k"))`,
 			`@(number("٣"))`, `@(number(" 12 "))`, `@(number(".5"))`, `@(number("5."))`, `@(number("1e5"))`, `@(boolean("x"))`, `@(date("x"))`, `@(time("25:00"))`, `@(array(1)[0][0])`,
 		} {
 			cr.template(r, t)
